@@ -43,7 +43,7 @@ SL2_THOROUGH = SL2_QUICK + [slots(r, v) for r in [(1, 0), (1, 1), (0, 0)] for v 
 SL3 = [slots(r, (1, 1, 1)) for r in [(1, 1, 0), (1, 0, 0), (1, 1, 1), (0, 0, 0)]]
 
 # ---- isolation scenarios: SRC 0 own pool / 1 victim pool: head position H, hole pattern PRES
-ISO_QUICK = [{'SRC': 0, 'H': 1, 'PRES': 7}, {'SRC': 0, 'H': 1, 'PRES': 5}, {'SRC': 1, 'H': 1, 'PRES': 7}, {'SRC': 1, 'H': 1, 'PRES': 6}]
+ISO_QUICK = [{'SRC': k, 'H': 1, 'PRES': m} for k in (0, 1) for m in range(1, 8)]
 ISO_THOROUGH = [{'SRC': k, 'H': h, 'PRES': m} for k in (0, 1) for h in (0, 1, 5) for m in range(1, 8)]
 
 SER_BOUNDS = {'soft limit': '0..INT_MAX', 'total request': '0..INT_MAX', 'delta per update': 'any int keeping the total in 0..INT_MAX',
@@ -71,7 +71,9 @@ HARNESSES = [
        desc='same oracle after every step of a history from the freshly constructed market: one adjust_demand per arena, then the final operation (4 real update_allotment runs; shows the pre-states of allot_step are reachable and consistent)',
        bounds={'arenas': 3, 'history': '3 adjust_demand + 1 final operation', 'max workers per arena': '0..7'}),
   dict(name='isolation', unit='iso', harness='h_iso.c', defines={'N': 3},
-       scenarios=ISO_QUICK, scenarios_thorough=ISO_THOROUGH, cbmc=['--unwind', '12', '--object-bits', '10'], timeout=1500,
+       scenarios=ISO_QUICK, scenarios_thorough=ISO_THOROUGH,
+       # kissat: the UNSAT side of these queries (64-bit tag equalities) takes MiniSat > 20 min, kissat ~1 s
+       cbmc=['--unwind', '12', '--object-bits', '10', '--external-sat-solver', 'kissat'], timeout=900,
        desc='arena_slot::get_task (own pool) / steal_task (victim pool) on a pool of 3 entries with symbolic 64-bit isolation tags and a symbolic waiter tag: the returned task carries the waiter tag (or the waiter is not isolated), it is the newest (owner) / oldest (thief) eligible one, every skipped task stays in the pool in order, skipped work is re-advertised',
        bounds={'pool entries': 3, 'tags / waiter tag': 'any 64-bit word (symbolic)', 'head position, hole pattern': 'concrete per query', 'proxies in the pool': 'none', 'threads': 'sequential'}),
   dict(name='slots_2t', unit='slots2', harness='h_slots.c', defines={'NT': 2, 'NSLOTS': 3, 'NRES': 1, 'ROUNDS': 2},
